@@ -34,6 +34,12 @@ impl AttrMap {
         self.0.insert(k.to_string(), val)
     }
 
+    /// Inserta el texto v en la clave k, sin interpretarlo como número
+    pub fn insert_str<K: ToString>(&mut self, k: &K, v: &str) -> Option<BdlValue> {
+        self.0
+            .insert(k.to_string(), BdlValue::String(v.trim().to_string()))
+    }
+
     /// Devuelve valor como BdlValue
     pub fn get(&self, attr: &str) -> Result<BdlValue, Error> {
         self.0.get(attr).cloned().ok_or_else(|| {
